@@ -362,7 +362,7 @@ PTag(ts, p0) ==
          ELSE LET c == AfterClose(ts, a + 1) IN
               IF c = 0 THEN CloseErr(ts, a + 1)
               ELSE LET b == BodyTo(ts, c, "endblock") IN IF ~b.ok THEN b ELSE POk(b.p, BlockS(B2S(ts[a].val), b.n))
-    [] nm \in {"if", "elseif"} ->       \* a stray elseif is read as an if (parseTag sends both names to parseIf)
+    [] nm = "if" ->       \* (an elseif is parsed by PIfRest; anywhere else the word is no tag)
          LET cx == PExprT(ts, p1) IN
          IF ~cx.ok THEN cx
          ELSE LET c == AfterClose(ts, cx.p) IN IF c = 0 THEN CloseErr(ts, cx.p) ELSE PIfRest(ts, c, cx.n)
